@@ -152,12 +152,17 @@ def SLink.time (l : SLink) : Rat := l.len / l.speed
 def SLink.cost (o : Opt) (l : SLink) : Rat := match o with | .distance => l.len | .time => l.time
 def SLink.joins (l : SLink) (u v : Nat) : Bool := (l.a == u && l.b == v) || (l.a == v && l.b == u)
 
-/-- the graph of the network: nodes = link end nodes, an edge per link in both directions -/
-def SNet.graph (sn : SNet) (o : Opt) : Graph Rat :=
-  { adj := fun u => sn.links.filterMap fun l => if l.a = u then some l.b else if l.b = u then some l.a else none
-    w := fun u v => match sn.links.find? (·.joins u v) with | some l => l.cost o | none => 0 }
-
 def SNet.size (sn : SNet) : Nat := sn.pos.foldl (fun m x => max m (x.1 + 1)) 0
+
+/-- the graph of the network: nodes = link end nodes, an edge per link in both directions, weighted
+by the link's length or time (adjacency tabulated once per network; a pair of nodes joined by
+several links would get the first link's cost — excluded by the property) -/
+def SNet.graph (sn : SNet) (o : Opt) : Graph Rat :=
+  let costs := sn.links.map fun l => (l.a, l.b, l.cost o)
+  let tbl : Array (List (Nat × Rat)) := ((List.range sn.size).map fun u =>
+    costs.filterMap fun (a, b, c) => if a = u then some (b, c) else if b = u then some (a, c) else none).toArray
+  { adj := fun u => (tbl.getD u []).map (·.1)
+    w := fun u v => match (tbl.getD u []).find? (·.1 == v) with | some x => x.2 | none => 0 }
 
 /-- ids of the nodes nearest `p` (all of them, should there be a tie) -/
 def SNet.nearest (sn : SNet) (p : Pt Rat) : List Nat :=
